@@ -249,3 +249,103 @@ Proof.
     assert (Hxs : x <> sid) by lia.
     rewrite (st_other _ _ _ _ _ _ St2 x (T2o x Hxs)), (st_other _ _ _ _ _ _ St1 x); [apply F1; lia|now apply N.eqb_neq].
 Qed.
+
+(* ------------------------------------------------------------------ OJoin *)
+Lemma eff_not_room h g sid s1 rn : RIx h g sid s1 -> is_virtual (s_kind s1) = false ->
+  (forall k0, s_room s1 = Some k0 -> snd k0 <> rn) -> forall d, replayT (s_pending s1) (g_rep g sid) <> Some (rn, d).
+Proof.
+  intros [_ _ _ Rp] Hv Hk d. specialize (Rp Hv). destruct (s_room s1) as [k0|].
+  - destruct Rp as (_ & d0 & Hd & _). rewrite Hd. intros E. injection E as E _. exact (Hk k0 eq_refl E).
+  - rewrite Rp. discriminate.
+Qed.
+
+Lemma room_num_ne h sid s rn : WF h -> Ten h -> get_sess h sid = Some s ->
+  match room_of h (s_backend s, rn) with Some r => nmem sid (r_members r) | None => false end = false ->
+  forall k0, s_room s = Some k0 -> snd k0 <> rn.
+Proof.
+  intros W T Hs Hin k0 Hk0 E. pose proof (t_room h T sid s k0 Hs Hk0) as Hb.
+  assert (k0 = (s_backend s, rn)) by (destruct k0; cbn in *; congruence). subst k0.
+  destruct (wf_room _ _ h W sid s _ Hs Hk0) as [[]|(r & Hr & Hm)]. rewrite Hr in Hin. apply nmem_In in Hm. congruence.
+Qed.
+
+Lemma get_rs_set h a b x : get_sess (rs_set h a b) x = get_sess h x.
+Proof. unfold get_sess. now rewrite rs_set_sessions. Qed.
+
+Lemma ri_do_join h g c sid s rn rs rep : WF h -> Inv h -> Ten h -> RI h g ->
+  get_sess h sid = Some s -> s_conn s = Some c ->
+  RI (fst (do_join h c sid s rn rs rep)) (gouts g (snd (do_join h c sid s rn rs rep))).
+Proof.
+  intros W Iv T I Hs Hc.
+  pose proof (pc_of_inv h Iv) as P.
+  assert (Hle : sid <= h_nextsid h) by (apply (inv_ids h Iv); eexists; exact Hs).
+  assert (Hv : is_virtual (s_kind s) = false).
+  { destruct (is_virtual (s_kind s)) eqn:V; [|reflexivity]. rewrite (ri_vconn _ _ _ _ (ri_sess _ _ I sid s Hs) V) in Hc. discriminate. }
+  unfold do_join. destruct (N.eqb_spec rn 0) as [->|Hz].
+  - destruct (s_room s); [|exact I].
+    pose proof (ri_leave_tell h g sid true s I P Hs Hv Hle) as R. cbv zeta in R. destruct R as (R & _).
+    destruct (leave_room h sid true) as [h1 o1]. cbn [fst snd] in R. destruct (send_session h1 sid (SRoom 0)) as [h2 o2]. cbn [fst snd] in *.
+    eapply ri_eq; [| | |exact R]; destruct (N.eqb (s_user s) 0 && negb (is_internal (s_kind s))); reflexivity.
+  - cbv zeta. destruct (match room_of h (s_backend s, rn) with Some r => nmem sid (r_members r) | None => false end) eqn:Hin.
+    + (* already in the room *)
+      match goal with |- context [send_session ?H sid (SError E_already_joined)] => set (h1 := H) end.
+      assert (B1 : NR noex h h1).
+      { unfold h1. destruct (N.eqb (s_rs s) _); [apply nr_refl|].
+        eapply nr_put_old; [apply nr_rs_set, nr_refl|rewrite get_rs_set; exact Hs|reflexivity..]. }
+      pose proof (nr_send_irr noex h h1 sid (SError E_already_joined) eq_refl B1) as Q.
+      destruct (send_session h1 sid (SError E_already_joined)) as [h2 outs]. now apply (ri_quiet h).
+    + pose proof (room_num_ne h sid s rn W T Hs Hin) as Hne.
+      destruct (is_internal (s_kind s)).
+      * apply (ri_join_room h g c sid _ _ None 0 s); auto.
+        apply (eff_not_room h); [apply (ri_sess _ _ I sid s Hs)|exact Hv|exact Hne].
+      * (* the kick *)
+        set (rsv := if N.eqb rs 0 then 0 else 1000000 + rs).
+        assert (K : nres noex h (if N.eqb rs 0 || N.eqb (s_rs s) rsv then (h, []) else kick_room_session h rsv)).
+        { destruct (N.eqb rs 0 || N.eqb (s_rs s) rsv); [split; [apply nr_refl|apply qouts_nil]|apply nr_kick, nr_refl]. }
+        assert (W1 : WF (fst (if N.eqb rs 0 || N.eqb (s_rs s) rsv then (h, []) else kick_room_session h rsv))).
+        { destruct (N.eqb rs 0 || N.eqb (s_rs s) rsv); [exact W|now apply wf_kick]. }
+        assert (R0 : rel0 sid h (fst (if N.eqb rs 0 || N.eqb (s_rs s) rsv then (h, []) else kick_room_session h rsv))).
+        { destruct (N.eqb rs 0 || N.eqb (s_rs s) rsv); [apply rel0_refl|apply rel0_kick]. }
+        destruct (if N.eqb rs 0 || N.eqb (s_rs s) rsv then (h, []) else kick_room_session h rsv) as [h1 outs1].
+        cbn [fst snd] in *. destruct K as [B1 Q1]. cbn [fst snd] in B1, Q1.
+        assert (I1 : RI h1 g) by (eapply ri_nr; [exact I|exact B1|intros x s' []]).
+        assert (Hg : forall l, gouts g (ToBackend (s_backend s, 1, 0, rn, (if N.eqb rs 0 then 2000000 + sid else rsv), 1) :: outs1 ++ l) = gouts g l).
+        { intros l. rewrite gouts_cons. cbn [gout]. rewrite gouts_app, (gouts_quiet _ _ Q1). reflexivity. }
+        destruct (get_sess h1 sid) as [s1|] eqn:Hs1.
+        2:{ cbn [fst snd]. rewrite <- (app_nil_r outs1), Hg. exact I1. }
+        destruct rep as [perms su|code].
+        -- pose proof (pc_nr noex h h1 P B1 (fun x s0 (E : noex x) _ _ => match E with end)) as P1.
+           destruct (r0_core _ _ _ R0 s1 Hs1) as (s0 & Hs0 & [C0 _]). assert (s0 = s) by congruence. subst s0.
+           assert (O1 : s_kind s1 = s_kind s /\ s_room s1 = s_room s).
+           { destruct B1 as (Ss & _ & _). destruct (Ss sid s1 Hs1) as [[]|[(s0 & Hs0' & K0 & _ & Rm & _)|(_ & C1 & _)]]; [|congruence].
+             assert (s0 = s) by congruence. subst s0. split; [exact K0|]. destruct Rm as [V|Rm]; [congruence|exact Rm]. }
+           destruct O1 as [K1 Rm1].
+           assert (Hv1 : is_virtual (s_kind s1) = false) by congruence.
+           assert (Hle1 : sid <= h_nextsid h1) by (destruct B1 as (_ & _ & Nx); eapply N.le_trans; [exact Hle|exact Nx]).
+           pose proof (ri_join_room h1 g c sid (s_backend s, rn) rsv perms su s1 W1 I1 P1 Hs1 Hv1 Hle1 Hz) as J.
+           assert (He : forall d, replayT (s_pending s1) (g_rep g sid) <> Some (snd (s_backend s, rn), d)).
+           { apply (eff_not_room h1); [apply (ri_sess _ _ I1 sid s1 Hs1)|exact Hv1|]. rewrite Rm1. exact Hne. }
+           specialize (J He). destruct (join_room h1 c sid (s_backend s, rn) rsv perms su) as [h2 outs2]. cbn [fst snd] in *.
+           rewrite Hg. exact J.
+        -- pose proof (nr_send_irr noex h1 h1 sid (SError code) eq_refl (nr_refl _ _)) as Q.
+           destruct (send_session h1 sid (SError code)) as [h2 outs]. cbn [fst snd]. rewrite Hg. exact (ri_quiet h1 g (h2, outs) I1 Q).
+Qed.
+
+Theorem ri_step_join h g c rn rs rep : WF h -> Inv h -> TI h -> RI h g ->
+  RI (fst (step h (OJoin c rn rs rep))) (gouts g (snd (step h (OJoin c rn rs rep)))).
+Proof.
+  intros W Iv [T Bj] I. cbn [step]. unfold with_session.
+  assert (Qerr : forall e, qouts [ToConn c (SError e)]) by (intros e; apply qouts_cons; [intros ? ? E; injection E as <- <-; reflexivity|apply qouts_nil]).
+  destruct (aget (h_conns h) c) as [cn|] eqn:Ec; [|exact I].
+  destruct (c_sess cn) as [sid|] eqn:Es; [|apply (ri_quiet h); [exact I|split; [apply nr_refl|apply Qerr]]].
+  destruct (get_sess h sid) as [s|] eqn:Hs; [|apply (ri_quiet h); [exact I|split; [apply nr_refl|apply Qerr]]].
+  destruct (wf_conns _ _ h W c cn sid Ec Es) as (s0 & Hs0 & Hc). assert (s0 = s) by congruence. subst s0.
+  pose proof (ri_do_join h g c sid s rn rs rep W Iv T I Hs Hc) as J.
+  destruct (do_join h c sid s rn rs rep) as [h1 o1]. cbn [fst snd] in J.
+  assert (Rv : RI (fst (revoke h1 sid)) (gouts g (o1 ++ snd (revoke h1 sid)))).
+  { rewrite gouts_app. apply (ri_quiet h1); [exact J|apply nr_revoke, nr_refl]. }
+  destruct rep as [[p|] su|code]; try exact J.
+  destruct (get_sess h1 sid) as [s1|]; [|exact J].
+  destruct (negb (N.eqb rn 0) && negb (is_internal (s_kind s)) && opt_pair_eqb (s_room s1) (Some (s_backend s, rn)) &&
+            negb (opt_pair_eqb (s_room s) (Some (s_backend s, rn)))); [|exact J].
+  destruct (revoke h1 sid) as [h2 o2]. exact Rv.
+Qed.
